@@ -87,17 +87,21 @@ def SECP256K1_PUB_SIZE : Nat := 33
 
 /-- `pubKey.GetHandler()` followed by `h.Address()`; `none` = GetHandler returned an error.
     (Since the fix "BTCEC public keys verify signatures and have an address" the BTCEC handler is
-    an ordinary one: address = hash of the compressed key.) -/
+    an ordinary one: address = hash of the compressed key; since "a BTCEC public key has one
+    spelling" only the 33-byte compressed form is a key, the uncompressed and hybrid forms
+    `btcec.ParsePubKey` also parses are refused.) -/
 def keyAddr {M S : Type} (p : Prims M S) (pk : PubKey) : Option Bytes :=
   match pk.alg with
   | .ed25519   => if pk.data.length = ED25519_PUB_SIZE then some (p.hashAddr pk) else none
   | .secp256k1 => if pk.data.length = SECP256K1_PUB_SIZE then some (p.hashAddr pk) else none
   | .ethsecp   => if p.parses pk then some (p.hashAddr pk) else none
-  | .btcec     => if p.parses pk then some (p.hashAddr pk) else none
+  | .btcec     => if pk.data.length = SECP256K1_PUB_SIZE && p.parses pk then some (p.hashAddr pk) else none
   | .unknown   => none
 
 /-- `h.VerifyBytes(msg, sig)`: every handler calls its library's verification
-    (BTCEC: `btcec.ParseDERSignature` + `Verify`) -/
+    (BTCEC: `btcec.ParseDERSignature` + `Verify`, and since "a BTCEC signature has one spelling"
+    only for the serialisation `Sign` produces — low s, nothing after it; the correspondence
+    oracle for `sigVerify` includes that rule) -/
 def keyVerify {M S : Type} (p : Prims M S) (pk : PubKey) (m : M) (s : S) : Bool :=
   p.sigVerify pk m s
 
